@@ -100,8 +100,32 @@ func genC19(g *gen) {
 				// anything else: it borrows and returns pool slices and must leave every operand as it was)
 				if len(live) >= 2 {
 					ops := []string{fmt.Sprintf("$%d", t.v)}
+					// partners the multi-iterator accepts (unequal non-vector shapes make it panic, which would end the
+					// history here): tensors of the same shape, or - for vectors - vectors of the same length in any form
+					size := func(sh []int) int {
+						n := 1
+						for _, d := range sh {
+							n *= d
+						}
+						return n
+					}
+					isVec := func(sh []int) bool {
+						return len(sh) == 1 || (len(sh) == 2 && (sh[0] == 1 || sh[1] == 1))
+					}
+					var partners []int
+					for _, o := range live {
+						if o.shape == nil || t.shape == nil {
+							continue
+						}
+						if ints(o.shape) == ints(t.shape) || (isVec(o.shape) && isVec(t.shape) && size(o.shape) == size(t.shape)) {
+							partners = append(partners, o.v)
+						}
+					}
+					if len(partners) == 0 {
+						partners = []int{t.v}
+					}
 					for j := 0; j < 1+g.r.intn(2); j++ {
-						ops = append(ops, fmt.Sprintf("$%d", live[g.r.intn(len(live))].v))
+						ops = append(ops, fmt.Sprintf("$%d", partners[g.r.intn(len(partners))]))
 					}
 					steps = append(steps, fmt.Sprintf("multi %s %s", strings.Join(ops, " "), g.r.pick([]string{"N", "nn", "rN", "nxN"})))
 				}
